@@ -35,6 +35,10 @@ def main():
         ops.append(("DenseC", Dense(cmpx(M))))
     ops.append(("Kronecker", Kronecker(Dense(rng.standard_normal((2, 2))), Dense(rng.standard_normal((2, 3))))))
     ops.append(("Diagonal", Diagonal(rng.standard_normal(4))))
+    Ssym = rng.standard_normal((4, 4))
+    ops.append(("SelfAdjoint(Dense)", cola.SelfAdjoint(Dense(Ssym + Ssym.T))))
+    Spd = Ssym @ Ssym.T + 4 * np.eye(4)
+    ops.append(("PSD(Dense)", cola.PSD(Dense(Spd))))
     slices = [slice(None), slice(1, 3), slice(None, None, 2), slice(None, None, -1), slice(3, 0, -2), slice(-3, None), slice(2, 2), slice(-2, None, -1), slice(0, 3)]
     for name, A in ops:
         D = np.asarray(A.to_dense())
@@ -60,6 +64,13 @@ def main():
         exprs.append(("A[slice, cols]", lambda A: A[0:2, c].to_dense(), lambda D: D[0:2][:, c]))
         exprs.append(("A[[i..],[j..]]", lambda A: A[[0, n - 1, 1 % n], [m - 1, 0, 1 % m]], lambda D: D[[0, n - 1, 1 % n], [m - 1, 0, 1 % m]]))
         exprs.append(("A[0:3,:][::-1,:]", lambda A: A[0:3, :][::-1, :].to_dense(), lambda D: D[0:3, :][::-1, :]))
+        if n == m and n >= 4:
+            # the same index SET in a different order / partially overlapping index arrays: not a principal submatrix, rows of the slice are rows
+            for r2, c2 in ((np.array([0, 2, 3]), np.array([3, 0, 2])), (np.array([0, 1, 2]), np.array([0, 3, 1]))):
+                exprs.append((f"A[{r2.tolist()}, {c2.tolist()}][1]", lambda A, r2=r2, c2=c2: A[r2, c2][1], lambda D, r2=r2, c2=c2: D[r2][:, c2][1]))
+                exprs.append((f"A[{r2.tolist()}, {c2.tolist()}][1, :]", lambda A, r2=r2, c2=c2: A[r2, c2][1, :], lambda D, r2=r2, c2=c2: D[r2][:, c2][1, :]))
+                exprs.append((f"A[{r2.tolist()}, {c2.tolist()}].T", lambda A, r2=r2, c2=c2: A[r2, c2].T.to_dense(), lambda D, r2=r2, c2=c2: D[r2][:, c2].T))
+                exprs.append((f"X @ A[{r2.tolist()}, {c2.tolist()}]", lambda A, r2=r2, c2=c2: np.ones((2, 3)) @ A[r2, c2], lambda D, r2=r2, c2=c2: np.ones((2, 3)) @ D[r2][:, c2]))
         exprs.append(("A[:,:][-2::-1,1::-1]", lambda A: A[:, :][-2::-1, 1::-1].to_dense(), lambda D: D[:, :][-2::-1, 1::-1]))
         for label, fa, fd in exprs:
             try:
